@@ -415,3 +415,93 @@ func (w *World) ruleKeyImmutability(rule string) {
 		w.undecided(rule, "key-writes", token.NoPos, "no write to a key object found (anchors moved?)")
 	}
 }
+
+// rulePubKeyCacheProvenance (C12.R7): the public-key cache of a private key only ever holds the public key *of that
+// private key*: every store into a cache field (a field of a PrivateKey implementation whose type is a PublicKey
+// implementation of the module) stores nil, or an object built in the same activation whose key material is derived from
+// the scalar of the very object whose cache is written — for BLS the generator multiple of `obj.scalar`, for ECDSA the
+// embedded public part `&obj.goPrKey.PublicKey`. A cache filled any other way (sums of other keys' caches, a caller's
+// key) makes PublicKey() depend on call history.
+func (w *World) rulePubKeyCacheProvenance(rule string) {
+	pubT, prT := map[*types.Named]bool{}, map[*types.Named]bool{}
+	for _, t := range w.implementors(rootPath, "PublicKey", rootPath) {
+		pubT[t] = true
+	}
+	for _, t := range w.implementors(rootPath, "PrivateKey", rootPath) {
+		prT[t] = true
+	}
+	named := func(t types.Type) *types.Named { n, _ := deref(t).(*types.Named); return n }
+	n := 0
+	for _, fn := range w.moduleFuncs() {
+		if isTestFile(w, fn.Pos()) || fn.Blocks == nil {
+			continue
+		}
+		instrsFlat(fn, func(ins ssa.Instruction) {
+			st, ok := ins.(*ssa.Store)
+			if !ok {
+				return
+			}
+			fa, ok := st.Addr.(*ssa.FieldAddr)
+			if !ok {
+				return
+			}
+			fld := addrField(fa)
+			if fld == nil || !prT[named(fa.X.Type())] || !pubT[named(fld.Type())] {
+				return
+			}
+			n++
+			key := fmt.Sprintf("%s/cache-store:%s.%s", fnKey(fn), typeShort(deref(fa.X.Type())), fld.Name())
+			if isNilConst(st.Val) {
+				w.ok(rule, key, st.Pos(), "cache starts empty")
+				return
+			}
+			obj := render(fa.X)
+			val := stripConv(st.Val)
+			al, isAl := val.(*ssa.Alloc)
+			if !isAl {
+				w.viol(rule, key, st.Pos(), "the public-key cache of `"+obj+"` is assigned `"+shortCond(render(val))+"`, a key that is not built here from that private key: PublicKey() would not be scalar·generator of this key in every call history")
+				return
+			}
+			// how is the key material of the new object filled?
+			derived := false
+			detail := ""
+			for _, ref := range *al.Referrers() {
+				f2, ok := ref.(*ssa.FieldAddr)
+				if !ok {
+					continue
+				}
+				for _, r2 := range *f2.Referrers() {
+					switch x := r2.(type) {
+					case *ssa.Store:
+						// ECDSA: goPubKey := &obj.goPrKey.PublicKey
+						if x.Addr == ssa.Value(f2) && strings.HasPrefix(render(x.Val), "&"+obj+".") && strings.HasSuffix(render(x.Val), ".PublicKey") {
+							derived = true
+							detail = "public part embedded in the same private key"
+						}
+					case ssa.CallInstruction:
+						// BLS: generatorScalarMultG2(&new.point, &obj.scalar) / C.G2_mult_gen_to_affine
+						args := x.Common().Args
+						if len(args) == 2 && stripConv(args[0]) == ssa.Value(f2) {
+							isGen := false
+							if callee := x.Common().StaticCallee(); callee != nil {
+								if cn, isC := cgoName(callee); isC && cn == "G2_mult_gen_to_affine" {
+									isGen = true
+								} else if len(cgoCallsDeep(w, callee, "G2_mult_gen_to_affine", 1)) > 0 {
+									isGen = true
+								}
+							}
+							if isGen && strings.HasPrefix(render(args[1]), "&"+obj+".") {
+								derived = true
+								detail = "generator multiple of the same key's scalar"
+							}
+						}
+					}
+				}
+			}
+			w.check(derived, rule, key, st.Pos(), "cache filled with the key derived from the same private key ("+detail+")", "the public-key cache of `"+obj+"` is filled with an object whose key material is not derived from `"+obj+"` itself")
+		})
+	}
+	if n == 0 {
+		w.undecided(rule, "cache-stores", token.NoPos, "no store into a public-key cache found (anchors moved?)")
+	}
+}
